@@ -29,6 +29,7 @@ type reloadCfg struct {
 	Slow         int  // http requests in flight across the reload
 	KeepAlive    bool // the user's http client reuses its connection for the requests after the reload
 	PoolCount    int
+	BW           string // bandwidthLimit mode of both proxies after the reload ("" | client | server)
 }
 
 func (r reloadCfg) sig() string { return fmt.Sprintf("%+v", r) }
@@ -44,6 +45,7 @@ func genReload(i int, rng *rand.Rand) reloadCfg {
 		KeepAlive: rng.Intn(2) == 0,
 		PoolCount: []int{0, 0, 1, 2}[rng.Intn(4)],
 	}
+	r.BW = []string{"", "", "client", "server"}[rng.Intn(4)]
 	return r
 }
 
@@ -139,6 +141,9 @@ func reloadCase(c *h.Case, i int) {
 		sb.WriteString(clientCommonTOML(pRelay, ps.clientAuth(), user, rc.Protocol, rc.Mux, false, rc.PoolCount, cliTLS{Enable: false}, false))
 		fmt.Fprintf(&sb, "webServer.addr = \"127.0.0.1\"\nwebServer.port = %d\n", pAdmin)
 		tr := fmt.Sprintf("transport.useEncryption = %v\ntransport.useCompression = %v\n", enc, comp)
+		if enc && rc.BW != "" {
+			tr += fmt.Sprintf("transport.bandwidthLimit = \"10MB\"\ntransport.bandwidthLimitMode = \"%s\"\n", rc.BW)
+		}
 		fmt.Fprintf(&sb, "\n[[proxies]]\nname = \"%s\"\ntype = \"http\"\nlocalIP = \"127.0.0.1\"\nlocalPort = %d\ncustomDomains = [\"%s\"]\n%s", nWeb, pBeHTTP, dom, tr)
 		fmt.Fprintf(&sb, "\n[[proxies]]\nname = \"%s\"\ntype = \"tcp\"\nlocalIP = \"127.0.0.1\"\nlocalPort = %d\nremotePort = %d\n%s", nTCP, pBeTCP, pTCP, tr)
 		return sb.String()
@@ -317,15 +322,17 @@ func reloadCase(c *h.Case, i int) {
 	// ---- everything sent from now on belongs to a registration with useEncryption = true
 	type sent struct{ leg, m string }
 	var post []sent
+	delivered := 0
 	cl := newClient(rc.KeepAlive)
 	for k := 0; k < 6; k++ {
 		m := newMarker(rng)
 		code, body, err := do(cl, "/echo", m)
+		post = append(post, sent{"http", m}) // judged even if the exchange failed: a readable marker is a violation either way
 		if err != nil || code != 200 || !strings.Contains(body, m) {
 			c.Ev("post-reload-request-failed", "k", k, "err", fmt.Sprint(err), "status", code)
 			continue
 		}
-		post = append(post, sent{"http", m})
+		delivered++
 		time.Sleep(time.Duration(rng.Intn(60)) * time.Millisecond)
 	}
 	for k := 0; k < 2; k++ {
@@ -334,8 +341,9 @@ func reloadCase(c *h.Case, i int) {
 			continue
 		}
 		m := newMarker(rng)
+		post = append(post, sent{"tcp", m})
 		if tcpRecord(conn, []byte(m)) == nil {
-			post = append(post, sent{"tcp", m})
+			delivered++
 		}
 		conn.Close()
 	}
@@ -358,13 +366,13 @@ func reloadCase(c *h.Case, i int) {
 			c.Violation("token-in-clear", "the authentication token is visible as %s at offset %d [%s]", form, at, rc.sig())
 		}
 	}
-	if len(post) == 0 {
+	if delivered == 0 {
 		run.Inconclusive("reload: nothing carried traffic after the reload")
 		return
 	}
 	run.Count("reload_cases_judged", 1)
 	run.Distinct("reload|" + rc.sig())
 	if i < 1 {
-		run.Sample(map[string]any{"kind": "reload", "cfg": rc, "markers_after_reload": len(post)})
+		run.Sample(map[string]any{"kind": "reload", "cfg": rc, "markers_after_reload": len(post), "delivered": delivered})
 	}
 }
